@@ -65,6 +65,19 @@ def stepOp (rb : Bool) (f : Forest) (ws : List String) : Option (Forest × List 
       else
         let f' := f.map (Mod.setFlags n c i s)
         pure (f', ["B set", line true [] f'])
+  | ["main", a, b, n] => do
+      -- Main() with the Apps tree = root n (a base Module(""): unnamed, hooks succeed and are not
+      -- user hooks, so its own events are not observable)
+      let a ← bool? a; let b ← bool? b; let n ← id? n
+      let t ← f.root? n
+      if t.info.named || !t.info.initOk || !t.info.startOk then none
+      else
+        let tr := (mainTrace rb a b t).filter fun e => e.id != n
+        let f' := f.filter fun x => x.id != n
+        pure (f', ["B main-" ++ (match mainCalls rb a b t with
+                      | [] => "ctx-init-fail" | [_] => (if (initM rb t).2.1 then "ctx-start-fail" else "apps-init-fail")
+                      | [_, _] => "apps-start-fail" | _ => "run"),
+                   line true tr f'])
   | [op, n] => do
       let n ← id? n
       let t ← f.root? n
@@ -94,15 +107,19 @@ def stepOp (rb : Bool) (f : Forest) (ws : List String) : Option (Forest × List 
       | _ => none
   | _ => none
 
-def stepLine (rb : Bool) (f : Forest) (ln : String) : Forest × List String :=
+/-- driver state: the forest, and whether branch tags (`B` lines) are switched off for this case -/
+abbrev DState := Forest × Bool
+
+def stepLine (rb : Bool) (st : DState) (ln : String) : DState × List String :=
   let ws := words ln
   match ws with
-  | [] => (f, [])
-  | "case" :: _ => ([], [ln.trimAscii.toString])
+  | [] => (st, [])
+  | "case" :: _ => (([], false), [ln.trimAscii.toString])
+  | ["quiet"] => ((st.1, true), ["P quiet"])
   | _ =>
-    match stepOp rb f ws with
-    | none => (f, ["bad-op"])
-    | some r => r
+    match stepOp rb st.1 ws with
+    | none => (st, ["bad-op"])
+    | some r => ((r.1, st.2), if st.2 then r.2.filter (fun l => !l.startsWith "B ") else r.2)
 
 def main (args : List String) : IO Unit :=
-  runDriver ([] : Forest) (stepLine (!(args.contains "orig")))
+  runDriver (([], false) : DState) (stepLine (!(args.contains "orig")))
